@@ -322,15 +322,17 @@ def explore(jobs, workers=None, chunk=40, max_paths=None, deadline=None, progres
         for k in r['known_hits']:
             agg['known_hits'][k] = agg['known_hits'].get(k, 0) + 1
         agg['funcs'].update(r['funcs'])
-        for lp in r['leftover']:
-            tasks.append((r['job'], lp, chunk))
+        # leftovers of a subtree go to the front: finish what was started before opening new jobs
+        for lp in reversed(r['leftover']):
+            tasks.insert(0, (r['job'], lp, chunk))
 
     if workers <= 1:
         while tasks:
             if (max_paths and agg['paths'] >= max_paths) or (deadline and time.time() > deadline):
                 agg['complete'] = False
+                agg['unexplored'] = len(tasks)
                 break
-            absorb(work(tasks.pop()))
+            absorb(work(tasks.pop(0)))
         agg['wall'] = time.time() - t0
         agg['funcs'] = sorted(agg['funcs'])
         return agg
@@ -342,9 +344,10 @@ def explore(jobs, workers=None, chunk=40, max_paths=None, deadline=None, progres
             if stop:
                 if tasks:
                     agg['complete'] = False
+                    agg['unexplored'] = agg.get('unexplored', 0) + len(tasks)
                 tasks.clear()
             while tasks and len(inflight) < workers * 3:
-                inflight.append(pool.apply_async(work, (tasks.pop(),)))
+                inflight.append(pool.apply_async(work, (tasks.pop(0),)))
             done = [r for r in inflight if r.ready()]
             if not done:
                 time.sleep(0.01)
